@@ -2678,6 +2678,9 @@ class PGPKey(Armorable, ParentRef, PGPObject):
                 # and file away pgpobj
                 if isinstance(pgpobj, PGPKey):
                     if pgpobj.is_primary:
+                        # a certificate that occurs again takes the place of the earlier one at the end, so that it
+                        # is "the most recently parsed primary key" for the components that follow it
+                        keys.pop((pgpobj.fingerprint.keyid, pgpobj.is_public), None)
                         keys[(pgpobj.fingerprint.keyid, pgpobj.is_public)] = pgpobj
 
                     else:
